@@ -458,6 +458,11 @@ class Parser:
             return True
         return False
 
+    def __curchar(self, text: bytes) -> str:
+        """Return the character located at the lexer's current position."""
+        chunk = text[self.lexer.pos : self.lexer.pos + 4]
+        return chunk.decode("utf-8", "ignore")[:1]
+
     def parse(self, text: bytes) -> bool:
         """The parser entry point.
 
@@ -492,7 +497,7 @@ class Parser:
                             msg = "{} found while {} expected near '{}'".format(
                                 ttype,
                                 "|".join(self.__expected),
-                                text.decode()[self.lexer.pos],
+                                self.__curchar(text),
                             )
                         else:
                             msg = "%s found while %s expected at end of file" % (
@@ -504,8 +509,8 @@ class Parser:
 
                 if not self.__command(ttype, tvalue):
                     msg = "unexpected token '%s' found near '%s'" % (
-                        tvalue.decode(),
-                        text.decode()[self.lexer.pos],
+                        tvalue.decode("utf-8", "replace"),
+                        self.__curchar(text),
                     )
                     raise ParseError(msg)
             if self.__expected_brackets:
@@ -520,6 +525,17 @@ class Parser:
                     "end of script reached while semicolon or block expected"
                 )
 
+        except UnicodeDecodeError as e:
+            self.error_pos = (
+                self.lexer.curlineno(),
+                self.lexer.curcolno(),
+                len(tvalue),
+            )
+            self.error = "line %d: invalid UTF-8 sequence (%s)" % (
+                self.error_pos[0],
+                e.reason,
+            )
+            return False
         except (ParseError, CommandError) as e:
             self.error_pos = (
                 self.lexer.curlineno(),
